@@ -3,6 +3,7 @@ package simrt
 import (
 	"bytes"
 	"fmt"
+	"os"
 	"runtime"
 	"sort"
 	"strconv"
@@ -148,22 +149,34 @@ func Now() time.Duration {
 }
 
 func (s *Sched) lookup(autoSite string) *task {
-	gid, bubble := goidBubble()
+	gid := fastGoid()
+	s.mu.Lock()
+	t := s.byGid[gid]
+	s.mu.Unlock()
+	if t != nil || autoSite == "" {
+		return t
+	}
+	// unknown goroutine: it becomes a task if it belongs to this simulation's bubble
+	_, bubble := goidBubble()
 	if bubble != s.bubble {
 		return nil
 	}
 	s.mu.Lock()
-	t := s.byGid[gid]
-	if t == nil && autoSite != "" {
-		s.autoN++
-		s.res.AutoTasks++
-		t = &task{id: []int{1 << 30, s.autoN}, name: "auto@" + autoSite, ch: make(chan int), gid: gid}
-		s.byGid[gid] = t
-		s.nTasks++
-	}
+	s.autoN++
+	s.res.AutoTasks++
+	t = &task{id: []int{1 << 30, s.autoN}, name: "auto@" + autoSite, ch: make(chan int), gid: gid}
+	s.byGid[gid] = t
+	s.nTasks++
 	s.mu.Unlock()
+	if debugAuto {
+		buf := make([]byte, 4096)
+		n := runtime.Stack(buf, false)
+		fmt.Fprintf(os.Stderr, "AUTO-TASK at %s:\n%s\n", autoSite, buf[:n])
+	}
 	return t
 }
+
+var debugAuto = os.Getenv("VERIF_DEBUG_AUTO") != ""
 
 // Yield is a scheduling point: the calling goroutine parks until the scheduler releases it.
 // Outside a simulation (or on a goroutine that does not belong to it) it does nothing.
@@ -245,7 +258,7 @@ func GoNamed(name string, f func()) {
 }
 
 func (s *Sched) runTask(t *task, f func()) {
-	gid, _ := goidBubble()
+	gid := fastGoid()
 	t.gid = gid
 	s.mu.Lock()
 	s.byGid[gid] = t
@@ -272,15 +285,37 @@ func (s *Sched) runTask(t *task, f func()) {
 	f()
 }
 
-// AfterFunc is time.AfterFunc whose callback runs as a task.
+// AfterFunc is time.AfterFunc whose callback runs as a task. The task's id is fixed when the
+// timer is created (child of the creating task), so that callbacks firing at the same virtual
+// instant are ordered reproducibly.
 func AfterFunc(d time.Duration, f func()) *time.Timer {
 	s := cur.Load()
 	if s == nil {
 		return time.AfterFunc(d, f)
 	}
+	parent := s.lookup("")
+	var base []int
+	s.mu.Lock()
+	if parent != nil {
+		parent.spawned++
+		base = append(append([]int(nil), parent.id...), parent.spawned)
+	} else {
+		s.autoN++
+		base = []int{1 << 29, s.autoN}
+	}
+	s.mu.Unlock()
+	fires := 0
 	return time.AfterFunc(d, func() {
-		Yield("afterfunc")
-		f()
+		if cur.Load() != s {
+			f()
+			return
+		}
+		s.mu.Lock()
+		fires++
+		t := &task{id: append(append([]int(nil), base...), fires), name: "afterfunc", ch: make(chan int)}
+		s.nTasks++
+		s.mu.Unlock()
+		s.runTask(t, f)
 	})
 }
 
